@@ -302,6 +302,8 @@ def generate(rng, tier):
     for k in range(12):
         scs.append({"probe": "copy_attach", "seed": rng.randrange(10 ** 6), "first": ["copy", "deepcopy"][k % 2],
                     "side": ["copy", "original"][(k // 2) % 2]})
+    for k in range(4):
+        scs.append({"probe": "copy_attach", "seed": rng.randrange(10 ** 6), "first": "copy", "side": "copy", "shared_list": True})
     scs.append({"probe": "d25", "how": "deepcopy"})
     scs.append({"probe": "d25", "how": "pickle"})
     return scs, [("seeded random machines (sync / async, rtc on/off, allow flag, start_value, stored state, state "
